@@ -397,6 +397,28 @@ def run_case_full(case):
                     fail("untrusted-kind-effect/wsgi.url_scheme", "scheme changed although x-forwarded-proto is not trusted")
         else:
             pass
+    if st3 == "200":
+        # whatever was selected, the connection metadata handed to the application is never empty / never a third scheme
+        for k in ("REMOTE_ADDR", "REMOTE_HOST", "SERVER_NAME", "HTTP_HOST", "SERVER_PORT"):
+            if env.get(k, "x") == "":
+                fail("empty-metadata/" + k, "%s is the empty string for headers %r (trusted %r, count %d): an element without an address / host cannot be interpreted" % (
+                    k, hdrs, tph, count))
+        if env.get("wsgi.url_scheme") not in ("http", "https"):
+            fail("scheme-value", "wsgi.url_scheme = %r" % env.get("wsgi.url_scheme"))
+        # (b) metamorphic: stating, in a trusted X-Forwarded-Proto, the scheme that is in effect anyway changes nothing (the port being
+        # given explicitly, so that no default port is derived from the scheme)
+        if "x-forwarded-proto" in tph and hdrs.get("x-forwarded-proto", "") == "" and "x-forwarded-port" in tph and hdrs.get("x-forwarded-port", "").isdigit() \
+                and "forwarded" not in tph:
+            labels.add("explicit-scheme-relation")
+            h2 = dict(hdrs)
+            h2["x-forwarded-proto"] = env["wsgi.url_scheme"]
+            st2, env2, exc2 = run_mw(h2, tph, count, clear)
+            e1 = {k: v for k, v in (env or {}).items() if k != P.ENV["x-forwarded-proto"]}
+            e2 = {k: v for k, v in (env2 or {}).items() if k != P.ENV["x-forwarded-proto"]}
+            if exc2 or st2 != st3 or e1 != e2:
+                d = sorted(set(e1.items()) ^ set(e2.items()))[:4]
+                fail("explicit-scheme-changes-outcome", "adding X-Forwarded-Proto: %s (the scheme already in effect) changed the outcome: %r -> %r %r; differences %r; headers %r" % (
+                    env["wsgi.url_scheme"], st3, st2, exc2, d, hdrs))
     # (b) metamorphic: hops left of the trusted suffix do not matter
     struct = derive_struct(hdrs)
     for kind in ("x-forwarded-for", "x-forwarded-host", "forwarded"):
@@ -582,6 +604,17 @@ def run_job(job, col):
     if k == "must400":
         for c in must400_table():
             one(c)
+        # host / port / scheme combinations (default and non-default ports, host with and without a port, scheme stated or not)
+        for host in ("example.com", "example.com:80", "example.com:8443", "[2001:db8::1]", "[2001:db8::1]:443"):
+            for port in (None, "80", "443", "8080"):
+                for proto in (None, "http", "https"):
+                    for tph in (["x-forwarded-host", "x-forwarded-port", "x-forwarded-proto"], ["x-forwarded-host", "x-forwarded-port"], ["x-forwarded-host", "x-forwarded-proto"]):
+                        hd = {"x-forwarded-host": host}
+                        if port:
+                            hd["x-forwarded-port"] = port
+                        if proto:
+                            hd["x-forwarded-proto"] = proto
+                        one({"hdrs": hd, "tph": tph, "count": 1})
         col.exhaustive("table of the malformed classes named by the statement x count 1..3 x position")
     elif k == "degenerate":
         for i, c in enumerate(degenerate_table()):
